@@ -52,7 +52,7 @@ func vxSpecNode(S []vxLeaf, r uint) felt.Felt {
 		x = x.Or(S[0].k.Xor(S[i].k))
 	}
 	x = x.And(vx.W256Mask(r))
-	bl := x.BitLen() // highest differing bit is bl-1 (keys are distinct, so bl >= 1)
+	bl := uint(vx.Concrete(uint64(x.BitLen()))) // highest differing bit is bl-1 (keys are distinct, so bl >= 1)
 	l := r - bl
 	var S0, S1 []vxLeaf
 	for _, s := range S {
@@ -94,7 +94,7 @@ func vxCheckShape(n trienode.Node, S []vxLeaf, r uint) {
 		x = x.Or(S[0].k.Xor(S[i].k))
 	}
 	x = x.And(vx.W256Mask(r))
-	bl := x.BitLen()
+	bl := uint(vx.Concrete(uint64(x.BitLen())))
 	l := r - bl
 	var S0, S1 []vxLeaf
 	for _, s := range S {
@@ -155,17 +155,17 @@ func vxModelSet(m []vxLeaf, k vx.W256, v felt.Felt) []vxLeaf {
 }
 
 func VxC01Trie2Operations() {
-	nkeys, nops := 2, 3
+	nkeys, nops := 2, 2
 	height := uint(8)
 	if vx.Thorough() {
 		nkeys, nops, height = 3, 4, 16
 		vx.Bound("height 16; 3 distinct arbitrary keys; 4 operations Update(k_i, v) with v arbitrary or zero (delete); Hash after every operation; symbolic probe. (Width-specific path arithmetic is decided at full 256-bit width by the VxC01BitArray* harnesses; the trie logic itself is height-generic.)")
 	} else {
-		vx.Bound("height 8; 2 distinct arbitrary keys; 3 operations Update(k_i, v) with v arbitrary or zero (delete); Hash after every operation; symbolic probe. (Width-specific path arithmetic is decided at full 256-bit width by the VxC01BitArray* harnesses; the trie logic itself is height-generic.)")
+		vx.Bound("height 8; 2 distinct arbitrary keys; 2 operations Update(k_i, v) with v arbitrary or zero (delete); Hash after every operation; symbolic probe. (Width-specific path arithmetic is decided at full 256-bit width by the VxC01BitArray* harnesses; the trie logic itself is height-generic.)")
 	}
-	// the bit-array primitives are replaced by their 256-bit specifications, each of which is
-	// checked against the real implementation at full width by the VxC01BitArray* harnesses
-	trieutils.VxUseBitArraySpecs()
+	// the divergence position (findFirstSetBit) is case-split, so every path length is a constant
+	// and all other bit-array code runs from its real source
+	trieutils.VxCaseSplitFirstSetBit()
 	keysF := make([]felt.Felt, nkeys)
 	keysW := make([]vx.W256, nkeys)
 	for i := range keysF {
